@@ -915,8 +915,11 @@ void deindent_line(token  * line) {
 				line->child->prev = NULL;
 				line->child->tail = t->tail;
 
+				// The line may also have lost a block quote marker before (without
+				// its start being moved), so shorten it by everything in front of
+				// what is now its first token -- not just by the indent
+				line->len -= line->child->start - line->start;
 				line->start = line->child->start;
-				line->len -= t->len;
 			}
 
 			token_free(t);
